@@ -90,7 +90,7 @@ def case_strategy(draw, tier):
         frame['cols'][-1]['name'] = '%s_%s' % (
             frame['cols'][0]['name'],
             draw(st.sampled_from(['x', 'gbp', 'x_y', '1', 'min', 'ok'])))
-    cons = draw(GC.constraint_set(frame, inside=True))
+    cons = draw(GC.respell_dates(draw(GC.constraint_set(frame, inside=True))))
     names = [c['name'] for c in frame['cols']]
     of = draw(st.sampled_from(['none', 'all', 'subset']))
     if of == 'none':
